@@ -20,7 +20,8 @@ pub struct Rec {
 #[derive(Clone, Debug)]
 pub struct Case {
     pub recs: Vec<Rec>,
-    pub header: u8,
+    /// 0..=4 fixed value plans; 16 + i = field values taken from entry i of the source dictionary
+    pub header: u16,
 }
 
 impl Case {
@@ -29,7 +30,7 @@ impl Case {
     }
     fn from_json(v: &Value) -> Case {
         Case {
-            header: v["header"].as_u64().unwrap_or(0) as u8,
+            header: v["header"].as_u64().unwrap_or(0) as u16,
             recs: v["recs"]
                 .as_array()
                 .map(|a| {
@@ -79,7 +80,31 @@ fn payload(kind: u8, size: usize) -> Vec<u8> {
     v
 }
 
-fn header_plan(p: u8) -> VolHeader {
+fn header_plan(p: u16) -> VolHeader {
+    if p >= 16 {
+        // tape filename / extension / ICAO filled from a literal that occurs in the source under
+        // test (left-aligned, continued cyclically, so a 9-byte constant lands exactly in the tape
+        // field and a 4-byte one in the ICAO field)
+        let d = source_dictionary();
+        let lit = &d[(p as usize - 16) % d.len().max(1)];
+        let at = |i: usize| lit[i % lit.len()];
+        let mut tape = *b"AR2V0006.";
+        for (i, b) in tape.iter_mut().enumerate() {
+            if i < lit.len() || lit.len() < 4 {
+                *b = at(i);
+            }
+        }
+        let mut ext = *b"001";
+        if lit.len() > 9 {
+            for (i, b) in ext.iter_mut().enumerate() {
+                if 9 + i < lit.len() {
+                    *b = lit[9 + i];
+                }
+            }
+        }
+        let icao = [at(0), at(1), at(2), at(3)];
+        return VolHeader { tape, ext, date: 19_000, time: 43_200_000, icao };
+    }
     match p {
         0 => VolHeader::basic(),
         1 => VolHeader { tape: *b"AR2V0002.", ext: *b"999", date: 1, time: 0, icao: *b"PHWA" },
@@ -209,13 +234,13 @@ pub fn check_case(ctx: &Ctx, c: &Case) -> &'static str {
     "ok"
 }
 
-fn check_header(ctx: &Ctx, h: &Header, hp: &VolHeader, plan: u8, wit: &dyn Fn() -> Value) {
+fn check_header(ctx: &Ctx, h: &Header, hp: &VolHeader, plan: u16, wit: &dyn Fn() -> Value) {
     let s = |b: &[u8]| String::from_utf8(b.to_vec()).ok();
     let r = guarded(|| (h.tape_filename(), h.extension_number(), h.icao_of_radar(), h.date_time().map(|d| d.timestamp_millis())));
     match r {
         Caught::Panic(p) => ctx.fail("header:accessor_panic", || p.clone(), wit),
         Caught::Ret((tape, ext, icao, dt)) => {
-            if plan < 4 {
+            if plan < 4 || (plan >= 16 && std::str::from_utf8(&hp.encode()[..16]).is_ok() && std::str::from_utf8(&hp.icao).is_ok()) {
                 if tape != s(&hp.tape) {
                     ctx.fail("header:tape_filename", || format!("{:?} vs {:?}", tape, s(&hp.tape)), wit);
                 }
@@ -264,11 +289,11 @@ pub fn run(ctx: &'static Ctx) -> (&'static str, Value, Vec<&'static str>) {
     let full = rec_options(true);
     let reduced = rec_options(false);
     let mut cases: Vec<Case> = Vec::new();
-    for h in 0..5u8 {
+    for h in 0..5u16 {
         cases.push(Case { recs: vec![], header: h });
     }
     for (i, r) in full.iter().enumerate() {
-        cases.push(Case { recs: vec![r.clone()], header: (i % 5) as u8 });
+        cases.push(Case { recs: vec![r.clone()], header: (i % 5) as u16 });
     }
     // all ordered pairs of the reduced option set (thorough: of the full set with small sizes)
     let pair_set: Vec<Rec> = if thorough { full.iter().filter(|r| r.size <= 2432).cloned().collect() } else { reduced.clone() };
@@ -277,7 +302,7 @@ pub fn run(ctx: &'static Ctx) -> (&'static str, Value, Vec<&'static str>) {
             if !thorough && (i * 31 + j * 17) % 3 != 0 {
                 continue;
             }
-            cases.push(Case { recs: vec![a.clone(), b.clone()], header: ((i + j) % 5) as u8 });
+            cases.push(Case { recs: vec![a.clone(), b.clone()], header: ((i + j) % 5) as u16 });
         }
     }
     // 3 and 4 records: every option appears in every position (cyclic covering)
@@ -286,9 +311,16 @@ pub fn run(ctx: &'static Ctx) -> (&'static str, Value, Vec<&'static str>) {
         for i in 0..set.len() {
             for stride in [1usize, 7, 13] {
                 let recs: Vec<Rec> = (0..n).map(|k| set[(i + k * stride) % set.len()].clone()).collect();
-                cases.push(Case { recs, header: (i % 5) as u8 });
+                cases.push(Case { recs, header: (i % 5) as u16 });
             }
         }
+    }
+    // header fields taken from every literal in the source under test, over three record lists
+    for i in 0..source_dictionary().len() {
+        let h = 16 + i as u16;
+        cases.push(Case { recs: vec![], header: h });
+        cases.push(Case { recs: vec![Rec { bz: true, size: 100, negative: false, content: 1, level: 9 }, Rec { bz: false, size: 6, negative: true, content: 2, level: 0 }, Rec { bz: true, size: 1, negative: false, content: 0, level: 1 }], header: h });
+        cases.push(Case { recs: vec![Rec { bz: false, size: 0, negative: false, content: 0, level: 0 }, Rec { bz: true, size: 2432, negative: true, content: 3, level: 9 }], header: h });
     }
     // large payloads: 5 MiB (thorough: 20 MiB) of text, above any plausible internal buffer size
     for size in if thorough { vec![5usize << 20, 20 << 20] } else { vec![5usize << 20] } {
@@ -328,7 +360,7 @@ pub fn run(ctx: &'static Ctx) -> (&'static str, Value, Vec<&'static str>) {
         use nexrad_data::aws::realtime::Chunk;
         let p = payload(r.content, r.size);
         let rec = record_bz(&p, r.level, r.negative);
-        let start = volume(&header_plan((i % 4) as u8), &[rec.clone()]);
+        let start = volume(&header_plan((i % 4) as u16), &[rec.clone()]);
         s2.eval();
         let wit = || json!({"op": "chunk", "rec": format!("{:?}", r)});
         // intermediate chunk = one compressed record
@@ -451,7 +483,7 @@ pub fn run(ctx: &'static Ctx) -> (&'static str, Value, Vec<&'static str>) {
         s3 = s3.merge(hs.into_inner().unwrap_or_else(|e| e.into_inner()));
         // short-read environment for the volume header
         use crate::guard::{short_read_check, SplitReader};
-        for hp in 0..4u8 {
+        for hp in 0..4u16 {
             let bytes = header_plan(hp).encode();
             let n = short_read_check(ctx, "volume::Header::deserialize", &bytes, true, |r: &mut SplitReader| Header::deserialize(r).ok().map(|h| (h.tape_filename(), h.extension_number(), h.icao_of_radar(), h.date_time())), |shape| json!({"op": "short_read", "header_plan": hp, "boundaries": shape.0, "max_chunk": shape.1}));
             s3.evaluations += n;
